@@ -2,6 +2,7 @@
 Three observations per input b: `crc b` (model of tsutils.go vs real), `crc.spec b` (textbook register of
 Spec/Crc32.v vs real), `crc.residue b` (ComputeCRC(b ++ ComputeCRC(b)), must be 00000000); every real reply is
 additionally compared with an independent table-driven CRC-32/MPEG-2 written here."""
+import vlib
 from vlib import Case, hx, unhx
 
 PROP = "C13"
@@ -40,7 +41,31 @@ def single(length, bitpos):
     return bytes(b)
 
 
+BORROWS = ["C14", "C09"]
+
+
+def _gen_emitted(rng, tier):
+    """clause "every section the library emits (filtered PMT, encoded splice_info_section) satisfies it": the emitting
+    operations of C14 (pmt.filter) and C09 (scte.build / scte.reencode) on their own generated inputs, judged by their
+    oracles, which compare the emitted bytes - CRC_32 included - with the Spec serialisation"""
+    import random as _r, importlib
+    out = []
+    for name, keep, th in (("c14", lambda c: c.decides and c.kind.startswith("filter-"), "C13_emitted_section_residue_ok + C14_filter_spec"),
+                           ("c09", lambda c: c.decides, "C13_emitted_section_residue_ok + C09 encode")):
+        try:
+            m = importlib.import_module("gen." + name)
+        except ImportError:
+            continue
+        sub = _r.Random(rng.randrange(1 << 62))
+        out += vlib.borrow(m, m.gen(sub, tier), "emitted", keep=keep, theorem=th)
+    return out
+
+
 def gen(rng, tier):
+    return _gen_own(rng, tier) + _gen_emitted(rng, tier)
+
+
+def _gen_own(rng, tier):
     out = []
     thorough = tier == "thorough"
     def crc(b, kind, th="C13_compute_crc_is_mpeg2"):
